@@ -222,6 +222,7 @@ func c16Wall(c map[string]interface{}) interface{} {
 			k := serial
 			serial++
 			dur := time.Duration(c16Int(op, "dur")) * time.Millisecond
+			fails, _ := op["fails"].(bool)
 			f := func(t time.Time) error {
 				mu.Lock()
 				if len(fires) < c16MaxFires {
@@ -230,6 +231,10 @@ func c16Wall(c map[string]interface{}) interface{} {
 				mu.Unlock()
 				if dur > 0 {
 					time.Sleep(dur)
+				}
+				if fails {
+					// what the job's function returns is its own business: the cron keeps its schedule
+					return fmt.Errorf("verif: job function failed")
 				}
 				return nil
 			}
